@@ -342,6 +342,10 @@ def rule_format_of_own_surface(prog, fixture=False):
                     continue            # an empty optional: "unformatted"
                 if k == "DeclRefExpr" and e.get("n") == "nullopt":
                     continue
+                if k == "ConditionalOperator":
+                    todo.append(e["c"][1])
+                    todo.append(e["c"][2])
+                    continue
                 if k == "CallExpr" and notpl(e.get("q") or "").endswith("identify_file_system"):
                     a = call_args(e)
                     leaves += 1
